@@ -293,3 +293,147 @@ Proof.
 Qed.
 
 End Rounded.
+
+(* ================================================================== Mesh1D::read on ANY token
+   list (any length, complete lines or not) into any mesh whose rows have nvars entries:
+   the only panics are those of the parser.  In particular `self.vars[i / (nvars+1)][var]` is
+   always in range: the first loop has pushed ceil(len / (nvars+1)) nodes. *)
+Section LoopOr.
+Context {St : Type}.
+
+(* a loop each of whose iterations keeps the invariant or panics with a panic in P *)
+Lemma for_from_inv_or (I : nat -> St -> Prop) (P : pkind -> Prop) n lo
+      (body : nat -> St -> res St) s :
+  I lo s ->
+  (forall i s, lo <= i < lo + n -> I i s ->
+     match body i s with Ok s' => I (S i) s' | Panic k => P k end) ->
+  match for_from n lo body s with Ok s' => I (lo + n) s' | Panic k => P k end.
+Proof.
+  revert lo s; induction n as [|n IH]; intros lo s H0 Hstep; cbn [for_from].
+  - now rewrite Nat.add_0_r.
+  - pose proof (Hstep lo s ltac:(lia) H0) as H1.
+    destruct (body lo s) as [s1|k]; cbn [bind]; [|exact H1].
+    replace (lo + S n) with (S lo + n) by lia. apply IH; [exact H1|].
+    intros i s2 Hi. apply Hstep. lia.
+Qed.
+
+End LoopOr.
+
+(* the number of line starts among the first i token positions: ceil (i / (nv+1)) *)
+Lemma ceil_step nv i :
+  (S i + nv) / (nv + 1) = (i + nv) / (nv + 1) + (if i mod (nv + 1) =? 0 then 1 else 0).
+Proof.
+  set (w := nv + 1). pose proof (Nat.div_mod_eq i w) as E.
+  assert (Hr : i mod w < w) by (apply Nat.mod_upper_bound; lia).
+  set (q := i / w) in *. set (r := i mod w) in *.
+  assert (E1 : (S i + nv) / w = q + 1).
+  { symmetry. apply (Nat.div_unique _ _ _ r); lia. }
+  rewrite E1. destruct (Nat.eqb_spec r 0) as [E0|E0].
+  - f_equal. apply (Nat.div_unique _ _ _ nv); lia.
+  - rewrite Nat.add_0_r. apply (Nat.div_unique _ _ _ (r - 1)); lia.
+Qed.
+
+Lemma div_lt_ceil nv i n : i < n -> i / (nv + 1) < (n + nv) / (nv + 1).
+Proof.
+  intros Hi. set (w := nv + 1).
+  apply Nat.lt_le_trans with ((i + w) / w).
+  - replace (i + w) with (i + 1 * w) by lia. rewrite Nat.div_add by lia. lia.
+  - apply Nat.div_le_mono; lia.
+Qed.
+
+Section Total.
+Context {A : Arith}.
+Variable tok : Type.
+Variable parse : tok -> res A.
+Notation mesh1 := (mesh1 A A).
+
+(* the panic is that of the parser on one of the tokens *)
+Definition parse_panic (toks : list tok) (k : pkind) : Prop :=
+  exists t, In t toks /\ parse t = Panic k.
+
+Lemma read1_ok_or_parse_panic (m0 : mesh1) (toks : list tok) :
+  Forall (fun r => length r = m1_nvars m0) (m1_vars m0) ->
+  match read1 tok parse m0 toks with
+  | Ok m' => wf1 m' /\ m1_nvars m' = m1_nvars m0 /\
+             length (m1_nodes m') = (length toks + m1_nvars m0) / (m1_nvars m0 + 1)
+  | Panic k => parse_panic toks k
+  end.
+Proof.
+  intros Hall0. unfold read1. cbv zeta. set (nv := m1_nvars m0) in *.
+  (* a token in range: a value, or the panic of the parser on it *)
+  assert (Htok : forall (St : Type) i (g : A -> res St) (Q : St -> Prop),
+            i < length toks ->
+            (forall x, match g x with Ok s => Q s | Panic k => parse_panic toks k end) ->
+            match (let* t := rd toks i in let* x := parse t in g x) with
+            | Ok s => Q s | Panic k => parse_panic toks k end).
+  { intros St i g Q Hi Hg. unfold rd. destruct (nth_error toks i) as [t|] eqn:Et.
+    - cbn [bind]. destruct (parse t) as [x|k] eqn:Ep; cbn [bind]; [apply Hg|].
+      exists t. split; [now apply nth_error_In in Et | exact Ep].
+    - apply nth_error_None in Et. lia. }
+  set (N := (length toks + nv) / (nv + 1)).
+  lazymatch goal with |- context [bind ?L _] =>
+    assert (H1 : match L with Ok nodes => length nodes = N | Panic k => parse_panic toks k end);
+    [|destruct L as [nodes|k1]; cbn [bind]; [|exact H1]] end.
+  { unfold for_. rewrite Nat.sub_0_r.
+    apply (for_from_inv_or (fun i (nodes : list A) => length nodes = (i + nv) / (nv + 1))
+             (parse_panic toks) (length toks) 0).
+    - cbn [length Nat.add]. symmetry. apply Nat.div_small. lia.
+    - intros i s Hi Hs. rewrite ceil_step. destruct (i mod (nv + 1) =? 0).
+      + apply Htok; [lia|]. intros x. cbn [bind]. rewrite app_length. cbn [length]. lia.
+      + lia. }
+  set (J := fun vars : list (list A) => length vars = N /\ Forall (fun r => length r = nv) vars).
+  lazymatch goal with |- context [bind ?L _] =>
+    assert (H2 : match L with Ok vars => J vars | Panic k => parse_panic toks k end);
+    [|destruct L as [vars|k2]; cbn [bind]; [|exact H2]] end.
+  { unfold for_ at 1. rewrite Nat.sub_0_r.
+    apply (for_from_inv_or (fun _ => J) (parse_panic toks) (length toks) 0).
+    - split; [rewrite resize_list_length; exact H1|].
+      apply Forall_resize_list; [exact Hall0 | apply repeat_length].
+    - intros i vs Hi Hvs. unfold for_. rewrite Nat.sub_0_r.
+      apply (for_from_inv_or (fun _ => J) (parse_panic toks) nv 0); [exact Hvs|].
+      intros var vs1 Hvar [Hl Hf]. destruct (i mod (nv + 1) =? var + 1); [|now split].
+      assert (Hk : i / (nv + 1) < length vs1) by (rewrite Hl; apply div_lt_ceil; lia).
+      apply Htok; [lia|]. intros x. rewrite set_elem_ok.
+      + split; [now rewrite upd_list_length|]. apply Forall_upd_list; [exact Hf|].
+        rewrite upd_list_length. now apply Forall_nth_lt.
+      + exact Hk.
+      + rewrite (Forall_nth_lt _ _ _ [] Hf Hk). lia. }
+  destruct H2 as [Hl Hf]. cbn [m1_nvars m1_nodes m1_vars].
+  split; [split; cbn [m1_nvars m1_nodes m1_vars]; [congruence | exact Hf]|]. split; [reflexivity | exact H1].
+Qed.
+
+(* every token parses <-> read returns a mesh; in that case it is well formed, has the nvars of
+   the mesh read into and one node per line start *)
+Lemma read1_ok_iff (m0 : mesh1) (toks : list tok) :
+  Forall (fun r => length r = m1_nvars m0) (m1_vars m0) ->
+  (exists m', read1 tok parse m0 toks = Ok m') <->
+  Forall (fun t => exists x, parse t = Ok x) toks.
+Proof.
+  intros Hall0. split.
+  - intros (m' & E). apply Forall_forall. intros t Ht.
+    destruct (parse t) as [x|k] eqn:Ep; [now exists x|].
+    apply In_nth_error in Ht as (i & Hi).
+    destruct (read1_bad_token tok parse m0 toks i t k Hi Ep) as (k' & E'). congruence.
+  - intros Hall. pose proof (read1_ok_or_parse_panic m0 toks Hall0) as H.
+    destruct (read1 tok parse m0 toks) as [m'|k]; [now exists m'|].
+    destruct H as (t & Ht & Ep). rewrite Forall_forall in Hall.
+    destruct (Hall t Ht) as (x & Ex). congruence.
+Qed.
+
+(* a parser with a single panic (f64::from_str(..).unwrap(): Unwrap): read returns a mesh or
+   exactly that panic, and the panic exactly when some token does not parse *)
+Lemma read1_panic_class (m0 : mesh1) (toks : list tok) k :
+  Forall (fun r => length r = m1_nvars m0) (m1_vars m0) ->
+  (forall t k', In t toks -> parse t = Panic k' -> k' = k) ->
+  (read1 tok parse m0 toks = Panic k <-> exists t, In t toks /\ parse t = Panic k) /\
+  (forall k', read1 tok parse m0 toks = Panic k' -> k' = k).
+Proof.
+  intros Hall0 Hone. pose proof (read1_ok_or_parse_panic m0 toks Hall0) as H. split; [split|].
+  - intros E. rewrite E in H. exact H.
+  - intros (t & Ht & Ep). apply In_nth_error in Ht as (i & Hi).
+    destruct (read1_bad_token tok parse m0 toks i t k Hi Ep) as (k' & E').
+    rewrite E' in H. destruct H as (t' & Ht' & Ep'). now rewrite <- (Hone t' k' Ht' Ep').
+  - intros k' E. rewrite E in H. destruct H as (t & Ht & Ep). exact (Hone t k' Ht Ep).
+Qed.
+
+End Total.
